@@ -1012,6 +1012,76 @@ func (w *hoWorld) wrongNonce(cf hoCfg) (res hoNonceRes) {
 	return res
 }
 
+// ---- two TO2 sessions of the same device both reach Done ----
+
+type hoDoubleRes struct {
+	harness        string
+	first, second  int // response types of the two TO2.Done messages
+	replaced       int
+	rows0, rows1   int // rows of the owner's voucher table before anything and at the end
+	oldGone, newOK bool
+}
+
+var lastHoDouble hoDoubleRes
+
+func hoVoucherRows(e *env.Env) int {
+	n := -1
+	_ = e.DB.DB().QueryRow("SELECT COUNT(*) FROM vouchers").Scan(&n)
+	return n
+}
+
+// doubleDone: sessions A and B of one device run up to the last service-info exchange; A completes (the voucher is
+// replaced), then B sends its Done. B's replacement must not happen (its old voucher is gone) and must leave nothing behind:
+// the store holds exactly what it held after A.
+func (w *hoWorld) doubleDone(cf hoCfg) (res hoDoubleRes) {
+	ctx, cancel := context.WithTimeout(context.Background(), 60*time.Second)
+	defer cancel()
+	pr, err := w.pair(cf.Spec)
+	if err != nil {
+		res.harness = err.Error()
+		return res
+	}
+	e := pr[0]
+	e.Reuse = false
+	e.OwnerModules = raw.OneShot(e)
+	defer func() { e.OwnerModules = nil }()
+	d, err := w.di(ctx, e, cf, 0)
+	if err != nil {
+		res.harness = "di: " + err.Error()
+		return res
+	}
+	res.rows0 = hoVoucherRows(e)
+	j0 := e.Journal.Len()
+	dr := raw.NewDriver(e, d, raw.Config{Kex: cf.Kex, Cipher: cf.Cipher})
+	sess := []int{-1, -1}
+	do := func(i int, s raw.Step) raw.Result {
+		s.Sess, s.BodyFrom = sess[i], -1
+		if sess[i] < 0 {
+			s.Tok = raw.TokNone
+		}
+		r := dr.Do(s)
+		if r.NewSess >= 0 {
+			sess[i] = r.NewSess
+		}
+		return r
+	}
+	for i := 0; i < 2; i++ {
+		for _, m := range []int{60, 62, 64, 66, 68, 68} {
+			if r := do(i, raw.Step{Msg: m}); r.RespType != m+1 {
+				res.harness = fmt.Sprintf("honest prefix of session %d: %d answered with %d %s %s", i, m, r.RespType, r.ErrStr, r.Err)
+				return res
+			}
+		}
+	}
+	res.first = do(0, raw.Step{Msg: 70}).RespType
+	res.second = do(1, raw.Step{Msg: 70}).RespType
+	res.replaced, _ = hoReplaces(e.Journal.Since(j0))
+	res.rows1 = hoVoucherRows(e)
+	_, err = e.DB.Voucher(ctx, d.Cred.GUID)
+	res.oldGone = err != nil
+	return res
+}
+
 // ---- a TO2 that fails at once in its first service-info exchange, with a devmod module that takes its time ----
 
 // hoSlowDevmod is a custom devmod module (TO2Config.DeviceModules["devmod"]): it writes the required messages, ends the
@@ -1188,6 +1258,16 @@ func registerHandoverKinds(c *core.Ctx) {
 			return "", "err-harness " + r.harness
 		}
 		return "", fmt.Sprintf("ok resp=%d replaced=%d store=%s", r.respType, r.replaced, map[bool]string{true: "same", false: "changed"}[r.sameBytes])
+	}})
+	c.Register(&core.Kind{Name: "handover.doubledone", NoModel: true, Eval: func(p core.Params) (string, string) {
+		w, done := hoWorldFor()
+		defer done()
+		lastHoDouble = w.doubleDone(hoCfgOf(p))
+		r := lastHoDouble
+		if r.harness != "" {
+			return "", "err-harness " + r.harness
+		}
+		return "", fmt.Sprintf("ok first=%d second=%d replaced=%d rows=%d->%d oldgone=%v", r.first, r.second, r.replaced, r.rows0, r.rows1, r.oldGone)
 	}})
 	c.Register(&core.Kind{Name: "handover.devmodrace", NoModel: true, Eval: func(p core.Params) (string, string) {
 		hoMu.Lock()
@@ -1451,6 +1531,21 @@ func RunC03(c *core.Ctx) {
 			}
 			if r.replaced != 0 || !r.sameBytes {
 				c.Fail("store-touched-before-done:70:wrong-nonce", fmt.Sprintf("%s: %d voucher replacements, voucher unchanged=%v", cf, r.replaced, r.sameBytes), "handover.wrongnonce", p, o)
+			}
+		}
+		if !cf.Reuse {
+			p := cf.params()
+			o := c.Do("handover.doubledone", p, "two-sessions-reach-done")
+			if r := lastHoDouble; r.harness != "" || o.Timeout {
+				c.Fail("harness:double-done", fmt.Sprintf("%s: %s", cf, o.Impl), "handover.doubledone", p, o)
+			} else {
+				c.Count("double_done", fmt.Sprintf("first=%d second=%d replaced=%d rows %d->%d", r.first, r.second, r.replaced, r.rows0, r.rows1))
+				if r.first != 71 {
+					c.Fail("harness:double-done", fmt.Sprintf("%s: the first Done was answered with %d", cf, r.first), "handover.doubledone", p, o)
+				} else if r.rows1 != r.rows0 || !r.oldGone || (r.second == 71) != (r.replaced == 2) {
+					c.Fail("store-not-as-after-one-handover", fmt.Sprintf("%s: two sessions reached Done (answers %d, %d): %d replacements recorded, voucher rows %d -> %d, old voucher gone=%v",
+						cf, r.first, r.second, r.replaced, r.rows0, r.rows1, r.oldGone), "handover.doubledone", p, o)
+				}
 			}
 		}
 		for _, phase := range []string{"di", "to2"} {
